@@ -5,7 +5,8 @@ PID = 'C07'
 
 
 def items():
-    return pubexport.scenarios() + [s for s in usage.scenarios() + fingerprints.scenarios() if PID in getattr(s, 'props', ())]
+    from contracts import armor          # 'in binary or armored form'
+    return pubexport.scenarios() + [s for s in usage.scenarios() + fingerprints.scenarios() + armor.scenarios() if PID in getattr(s, 'props', ())]
 
 
 def run(tier='quick', seed=0, only=None):
@@ -13,7 +14,8 @@ def run(tier='quick', seed=0, only=None):
     bounded = []
     if not only:
         from bounded import pubexport as bp
-        bounded = [bp.component]
+        from bounded import armor as _ba
+        bounded = [bp.component, _ba.short_crc_component]
     return runner.run_property(PID, its, bounded=bounded, tier=tier, seed=seed, level='proof',
                                trusted_base=['pyvc symbolic executor', 'z3 5.1 / cvc5 1.0.3'],
                                assumptions=['non-interference is decided syntactically on the symbolic heap of the derived packet (sound: values are exact terms of the inputs)',
